@@ -359,15 +359,25 @@ def query(obj, kind, q, x, aux):
         return obj.get_dosing_regimen(aux['final_time'])
     if q in ('c_call', 'c_s1', 'c_names'):
         if q == 'c_names':
-            return [str(n) for n in obj.get_parameter_names()] + [
-                'n=%d' % obj.get_n_parameters()]
+            lst = obj.get_parameter_names()
+            out = [str(n) for n in lst] + ['n=%d' % obj.get_n_parameters()]
+            if isinstance(lst, list):
+                lst.append('scribbled by the caller')
+            return out
         ids = sorted(str(i_) for i_ in obj._ids)
         post = obj.get_log_posterior(
             individual=str(ids[aux['ind'] % len(ids)]))
         return post(x) if q == 'c_call' else post.evaluateS1(x)
     if q == 'names':
-        return [str(n) for n in obj.get_parameter_names()] + [
-            'n=%d' % obj.n_parameters()]
+        lst = obj.get_parameter_names()
+        out = [str(n) for n in lst] + ['n=%d' % obj.n_parameters()]
+        # the list handed out is the caller's: he may do with it what he
+        # likes (here: he scribbles on it) without changing the object
+        if isinstance(lst, list):
+            lst.append('scribbled by the caller')
+            if len(lst) > 1:
+                lst[0] = 'scribbled by the caller'
+        return out
     raise ValueError(q)
 
 
